@@ -9,6 +9,11 @@ validated on the implementation by the harness predicates (reordering is proved 
 -/
 import JsonV.Lemmas.FormatCompact
 import JsonV.Lemmas.FormatDepth
+import JsonV.Lemmas.GlueFormatNum
+import JsonV.Lemmas.GlueFormatStr
+import JsonV.Lemmas.GlueFormatLayout
+import JsonV.Lemmas.FormatStrictL
+import JsonV.Gen.Lits
 
 namespace JsonV.Props.C12
 open JsonV JsonV.Fmt
@@ -71,16 +76,19 @@ theorem format_eq_some (o : WsOpts) (b b' : Bytes) :
   · rintro ⟨ts, ht, _, rfl⟩
     simp [ht]
 
-/-- The full statement against the declarative grammar: the accepted texts are exactly the blank layouts of
-well-nested token lists.  Only validated (harness: ok ⇔ IsValid ⇔ independent validator); the grammar side
-belongs to C01. -/
-def format_ok_iff_full : Prop :=
-  ∀ (o : WsOpts) (b : Bytes), (format o b).isSome = true ↔
-    ∃ (ts : List Tok) (wls : List (Bytes × Lex)) (tr : Bytes), WellNested ts ∧
-      wls.map Prod.snd = punct [.top0] ts ∧ (∀ p ∈ wls, allWs p.1 = true) ∧ allWs tr = true ∧
-      (∀ i, ∀ raw, (wls[i]?).map Prod.snd = some (.tok (.num raw)) →
-        ((wls[i+1]?).map (fun p => p.1 ≠ [] ∨ p.2.bytes.head?.all (fun c => !isNumChar c)) |>.getD True)) ∧
-      b = flatWs wls ++ tr
+/-- **succeed iff valid**, declaratively: formatting succeeds exactly on the blank layouts of well-nested token
+lists — the lexemes (tokens plus the delimiters the grammar requires) in order, each preceded by any
+whitespace, whitespace at the end.  With `wellNested_literals` the literals are those of RFC 8259 (C01). -/
+theorem format_ok_iff (o : WsOpts) (b : Bytes) :
+    (format o b).isSome = true ↔ ∃ ts, WellNested ts ∧ Layout (punct [.top0] ts) b := by
+  rw [format_ok_iff_partial]
+  constructor
+  · intro h
+    cases ht : tokenize b with
+    | none => simp [ht] at h
+    | some ts => exact ⟨ts, (tokenize_iff_layout' b ts).mp ht⟩
+  · rintro ⟨ts, h⟩
+    rw [(tokenize_iff_layout' b ts).mpr h]; rfl
 
 /-- **Meaning preserved**: the output has exactly the tokens of the input — same structure, string and
 number literals byte-identical (raw-preserving options), member order unchanged; only whitespace differs. -/
@@ -122,6 +130,147 @@ theorem format_fixed_when_formatted (o : WsOpts) (ho : o.Blank) (ts : List Tok) 
 theorem compact_fixed_when_compact (b : Bytes) (ts : List Tok) (h : WellNested ts) (hb : b = renderCompact ts) :
     compact b = some b := by
   subst hb; exact format_fixed_when_formatted compactOpts ⟨rfl, rfl⟩ ts h
+
+/-! ### Glue with C01 (Spec/Grammar.lean) -/
+
+/-- Tie A: the whitespace bytes of the model are the character literals of `jsonwire.ConsumeWhitespace`. -/
+theorem tie_ws : ∀ c : UInt8, isWs c = true ↔ [c.toNat] ∈ JsonV.Gen.jsonwire_ConsumeWhitespace_strs := by
+  apply forall_u8; decide +kernel
+
+/-- `scanNum` accepts exactly the numbers of RFC 8259 §6 (`JNumber`). -/
+theorem scanNum_iff (lit : Bytes) : scanNum .start lit = some (lit, []) ↔ Spec.Grammar.JNumber lit :=
+  scanNum_iff' lit
+
+/-- `scanStr` accepts exactly the strings of RFC 8259 §7 in the permissive UTF-8 mode (`JString false`). -/
+theorem scanStr_iff (lit : Bytes) : (Tok.str lit).valid = true ↔ Spec.Grammar.JString false lit :=
+  str_valid_iff lit
+
+/-- the literals of a well-nested list are literals of the C01 grammar -/
+theorem wellNested_literals (ts : List Tok) (h : WellNested ts) :
+    (∀ raw, Tok.str raw ∈ ts → Spec.Grammar.JString false raw) ∧ (∀ raw, Tok.num raw ∈ ts → Spec.Grammar.JNumber raw) :=
+  ⟨fun raw hm => (str_valid_iff raw).mp (h.1 _ hm),
+   fun raw hm => (scanNum_iff' raw).mp (Tok.valid_num (h.1 _ hm))⟩
+
+example : Spec.Grammar.JNumber [0x2d, 0x31, 0x2e, 0x35, 0x65, 0x33] := (scanNum_iff _).mp (by decide)
+example : Spec.Grammar.JString false [0x22, 0x5c, 0x75, 0x64, 0x38, 0x30, 0x30, 0xff, 0x22] := (scanStr_iff _).mp (by decide)
+
+/-- the tokenizer accepts exactly the blank layouts of well-nested lists (both directions, all texts) -/
+theorem tokenize_iff_layout (b : Bytes) (ts : List Tok) :
+    tokenize b = some ts ↔ WellNested ts ∧ Layout (punct [.top0] ts) b :=
+  tokenize_iff_layout' b ts
+
+/-- What remains for the glue with C01's `JText`: the push-down grammar over tokens (`accepts`, with the literal
+grammars and the layout already tied above) generates the same texts as the tree grammar `JValue`.  Validated
+by the correspondence of both `Value.IsValid` (C01) and `Value.Compact` (C12) with the real code on the same texts. -/
+def tokenize_iff_text_full : Prop :=
+  ∀ (key : Bytes → Bytes) (b : Bytes),
+    (tokenize b).isSome = true ↔ Spec.Grammar.JText ⟨false, true⟩ maxDepth key b
+
+/-! ### Strict model: Value.Format with the validation options (and PreserveRawStrings) -/
+
+/-- Under AllowInvalidUTF8(false) every string of an accepted text is a string of the strict grammar of C01
+(well-formed UTF-8, surrogate escapes paired). -/
+theorem strict_strings (o : FOpts) (hu : o.allowInvalidUTF8 = false) (ts : List Tok) (hk : tokensOK o ts = true) :
+    ∀ raw, Tok.str raw ∈ ts → Spec.Grammar.JString true raw := by
+  intro raw hm
+  simp only [tokensOK, Bool.and_eq_true, List.all_eq_true] at hk
+  have := hk.1 _ hm
+  simp only [strOK, hu, Bool.false_or] at this
+  exact (strictStr_iff raw).mp this
+
+/-- **succeed iff valid** for the strict model: Format succeeds exactly when IsValid (same validation options)
+holds, i.e. on the blank layouts of well-nested lists that pass the two validation predicates. -/
+theorem formatV_ok_iff (o : FOpts) (b : Bytes) :
+    ((formatV o b).isSome = isValidV o b) ∧
+    ((formatV o b).isSome = true ↔ ∃ ts, WellNested ts ∧ tokensOK o ts = true ∧ Layout (punct [.top0] ts) b) := by
+  constructor
+  · unfold formatV isValidV; cases tokenizeV o b <;> rfl
+  · unfold formatV
+    constructor
+    · intro h
+      cases ht : tokenizeV o b with
+      | none => simp [ht] at h
+      | some ts =>
+        obtain ⟨h1, h2⟩ := (tokenizeV_eq_some o b ts).mp ht
+        obtain ⟨h3, h4⟩ := (tokenize_iff_layout' b ts).mp h1
+        exact ⟨ts, h3, h2, h4⟩
+    · rintro ⟨ts, h3, h2, h4⟩
+      rw [(tokenizeV_eq_some o b ts).mpr ⟨(tokenize_iff_layout' b ts).mpr ⟨h3, h4⟩, h2⟩]; rfl
+
+/-- validity does not depend on the formatting options -/
+theorem isValidV_congr (o o' : FOpts) (h1 : o.allowInvalidUTF8 = o'.allowInvalidUTF8) (h2 : o.allowDup = o'.allowDup)
+    (b : Bytes) : isValidV o b = isValidV o' b := by
+  have hk : ∀ ts, tokensOK o ts = tokensOK o' ts := by
+    intro ts
+    have hs : strOK o = strOK o' := by funext t; cases t <;> simp [strOK, h1]
+    have hkey : nameKey o = nameKey o' := by funext raw; simp [nameKey, h1, h2]
+    simp [tokensOK, hs, h2, hkey]
+  unfold isValidV tokenizeV
+  cases tokenize b <;> simp [hk]
+
+/-- **Meaning preserved, strict model, PreserveRawStrings without an escape option**: the output has exactly the
+tokens of the input and passes the same validation. -/
+theorem formatV_meaning (o : FOpts) (hv : o.verbatim) (hw : o.ws.Blank) (b b' : Bytes) (h : formatV o b = some b') :
+    tokenizeV o b' = tokenizeV o b := by
+  unfold formatV at h
+  cases ht : tokenizeV o b with
+  | none => simp [ht] at h
+  | some ts =>
+    simp only [ht, Option.some.injEq, respell_verbatim o hv] at h
+    obtain ⟨h1, h2⟩ := (tokenizeV_eq_some o b ts).mp ht
+    rw [← h]
+    exact tokenizeV_render' o o.ws hw ts (tokenize_sound' b ts h1) h2
+
+/-- **Fixed point, strict model.** -/
+theorem formatV_idem (o : FOpts) (hv : o.verbatim) (hw : o.ws.Blank) (b b' : Bytes) (h : formatV o b = some b') :
+    formatV o b' = some b' := by
+  have hm := formatV_meaning o hv hw b b' h
+  unfold formatV at h ⊢
+  rw [hm]; exact h
+
+/-- **Output valid, strict model** (under the same validation options). -/
+theorem formatV_valid (o : FOpts) (hv : o.verbatim) (hw : o.ws.Blank) (b b' : Bytes) (h : formatV o b = some b') :
+    isValidV o b' = true := by
+  unfold isValidV
+  rw [formatV_meaning o hv hw b b' h]
+  unfold formatV at h
+  cases ht : tokenizeV o b with
+  | none => simp [ht] at h
+  | some ts => rfl
+
+/-- the strict model restricted to the permissive options is the model of Compact/Indent -/
+theorem formatV_permissive (w : WsOpts) (b : Bytes) :
+    formatV { allowInvalidUTF8 := true, allowDup := true, preserve := true, ws := w } b = format w b := by
+  have hk : ∀ ts, tokensOK { allowInvalidUTF8 := true, allowDup := true, preserve := true, ws := w } ts = true := by
+    intro ts
+    simp only [tokensOK, Bool.true_or, Bool.and_true, List.all_eq_true]
+    intro t _; cases t <;> simp [strOK]
+  unfold formatV tokenizeV format
+  cases tokenize b with
+  | none => rfl
+  | some ts =>
+    simp [hk, respell_verbatim { allowInvalidUTF8 := true, allowDup := true, preserve := true, ws := w } ⟨rfl, rfl, rfl⟩]
+
+-- `{"a":1,"a":2}`: rejected by default, accepted with AllowDuplicateNames; `"\ud800"` needs AllowInvalidUTF8
+example : formatV {} [0x7b, 0x22, 0x61, 0x22, 0x3a, 0x31, 0x2c, 0x22, 0x61, 0x22, 0x3a, 0x32, 0x7d] = none := by decide +kernel
+example : (formatV { allowDup := true } [0x7b, 0x22, 0x61, 0x22, 0x3a, 0x31, 0x2c, 0x20, 0x22, 0x61, 0x22, 0x3a, 0x32, 0x7d]).isSome = true := by decide +kernel
+example : isValidV {} [0x22, 0x5c, 0x75, 0x64, 0x38, 0x30, 0x30, 0x22] = false := by decide +kernel
+example : isValidV { allowInvalidUTF8 := true } [0x22, 0x5c, 0x75, 0x64, 0x38, 0x30, 0x30, 0x22] = true := by decide +kernel
+example : (⟨true, true, true, false, false, compactOpts⟩ : FOpts).verbatim := ⟨rfl, rfl, rfl⟩
+
+/-- Full statements for the respelling options (PreserveRawStrings off or an escape option on), validated by the
+harness predicates and by the `fmt formatv` correspondence: the output tokens are the input tokens with every
+string replaced by a literal of the same unescaped value, and formatting is idempotent. -/
+def formatV_meaning_full : Prop :=
+  ∀ (o : FOpts) (b b' : Bytes), o.ws.Blank → formatV o b = some b' →
+    ∃ ts ts', tokenizeV o b = some ts ∧ tokenizeV o b' = some ts' ∧
+      ts.length = ts'.length ∧ ∀ (i : Nat) (t t' : Tok), ts[i]? = some t → ts'[i]? = some t' →
+        (match t, t' with
+         | Tok.str raw, Tok.str raw' => (Model.Wire.unquote raw).1 = (Model.Wire.unquote raw').1
+         | t, t' => t = t')
+
+def formatV_idem_full : Prop :=
+  ∀ (o : FOpts) (b b' : Bytes), o.ws.Blank → formatV o b = some b' → formatV o b' = some b'
 
 /-! ### the nesting limit applies to every container, empty or not -/
 
